@@ -21,7 +21,7 @@ RULE = ('cases are histories of 3-8 signing operations, each followed by a contr
         'peer\'s view of signer/hash input/integers changed) reached PGPKey.verify and its verdict was compared with the '
         'ledger; distinct = distinct (signature kind, fault kind) multisets among non-trivial runs')
 TIERS = {'quick': {'runs': 3000, 'budget_s': 80}, 'thorough': {'runs': 250000, 'budget_s': 1500}}
-PROBES = ('control_verified', 'ledger_entry_not_ref_valid', 'control_failed', 'nonsemantic_skipped', 'mutant_rejected_raise', 'mutant_rejected_falsy',
+PROBES = ('issuer_rewrite_to_encryption_subkey', 'control_verified', 'ledger_entry_not_ref_valid', 'control_failed', 'nonsemantic_skipped', 'mutant_rejected_raise', 'mutant_rejected_falsy',
           'ref_unparsable_skipped', 'splice_cross_history', 'issuer_rewrite', 'subkey_signer', 'msg_multi_signer',
           'verifier_behind_signer', 'sig_expired_at_verify')
 FAULTS = ('sig_mpi_widen', 'sig_flip_hdr', 'sig_flip_hlen', 'sig_flip_hashed', 'sig_flip_mpi', 'sig_type', 'sig_halg', 'sig_pkalg', 'issuer_rewrite',
@@ -220,6 +220,14 @@ def mutate(art, d, w, history, ctx):
                     return None
                 o = lay['unhashed'][0] + iss[-1].off + len(iss[-1].raw) - 8
                 m = bytearray(a.sig)
+                own = w.keys[a.signer_name]
+                nosign = [sk for sk in own.subkeys.values() if not sk.key_algorithm.can_sign]
+                if nosign and d['alt'] % 3 == 0:
+                    # re-pointed at a component of the same key that has no signature scheme at all (its encryption subkey)
+                    m[o:o + 8] = bytes.fromhex(str(nosign[0].fingerprint))[-8:]
+                    a.sig = bytes(m)
+                    ctx.probe('issuer_rewrite_to_encryption_subkey')
+                    return a, True
                 m[o:o + 8] = bytes.fromhex(str(ok.fingerprint))[-8:]
                 a.sig = bytes(m)
                 a.verifier = bytes(ok.pubkey)
